@@ -17,7 +17,7 @@ PROPS = {
         translators=["morton"],
         theorems=["Texel.C17.gen_toZ_eq", "Texel.C17.gen_fromZ_eq", "Texel.C17.C17_roundtrip", "Texel.C17.C17_injective",
                   "Texel.C17.C17_bit", "Texel.C17.C17_parent", "Texel.C17.C17_ok_iff", "Texel.C17.getQuadrantZs_spec"],
-        streams=["tz", "gqz"],
+        streams=["tz", "gqz", "snap-above-32"],
         trusted=["translator trgen morton (go/ast, ~200 lines): morton.go -> Texel/Gen/Morton.lean, loops unrolled, tables inlined",
                  "Go's uint is 64 bit on the platform (modelled as BitVec 64)",
                  "getQuadrantZs is hand-modelled over the generated toZ/fromZ and tied by the gqz correspondence"],
@@ -65,7 +65,7 @@ FUNC = "model-functional-vs-reference"
 
 snapprop("C09", "proof", "Texel.Properties.C09",
     ["Texel.C09.C09_accept_iff", "Texel.C09.C09_outside_rejected", "Texel.C09.C09_snapped_only_inside", "Texel.C09.F2_witness"],
-    ["snap-outside", "addr"],
+    ["snap-outside", "snap-outside-extent", "addr"],
     "Lean 4 theorems (a vertex gets an address iff inside the half-open extent; any outside vertex makes SnapPolygon fail / return empty) + differential correspondence at 1-unit distances",
     "Theorems for every grid (any origin, resolution, depth), every polygon and every distance: deepestAddr accepts exactly the half-open extent (floor division), and one outside vertex decides the whole call "
     "(error by default, empty result with ignore-outside-grid). Tied to the code by the addr stream (public InsertPoint against the model, vertices 1 unit / res-1 / res / res+1 outside each side and corner) and the snap-outside stream.",
@@ -125,10 +125,10 @@ snapprop("C01", "other", "Texel.Properties.C01",
     extra_trusted=["SnapRoundingNoCross and OutputEdgesAreRoutedRuns are not proved"])
 
 snapprop("C04", "other", "Texel.Properties.C04",
-    ["Texel.C04.C04_output_vertex_is_input_pixel", "Texel.C04.C04_routed_boundary_within_half_pixel", "Texel.C04.C04_routed_vertex_is_input_pixel", "Texel.C04.C04_address_contains_vertex", "Texel.C04.C04_dedup_vertices"],
+    ["Texel.C04.C04_output_vertex_is_input_pixel", "Texel.C04.C04_routed_boundary_within_half_pixel", "Texel.C04.C04_edges_within_half_pixel_no_collapse", "Texel.C04.C04_routed_vertex_is_input_pixel", "Texel.C04.C04_address_contains_vertex", "Texel.C04.C04_dedup_vertices"],
     ["snap", FUNC],
     "partial Lean 4 proof (first clause proved at full strength on the model: every output vertex is the pixel of an input vertex, through joining, spike removal, ring splitting, cancellation, hole matching, reversal and keep) + exact half-pixel-distance and coverage oracles on every implementation answer",
-    "Partial proof + verified-oracle exploration: (a) is proved for everything snapPolygonF returns (C04_output_vertex_is_input_pixel); (b) is proved for the routed boundary of every ring, closing edge included (C04_routed_boundary_within_half_pixel: every point of every edge of joinChain(routeRing) is within half a pixel of the input ring, over Q), not through the clean-up; (b) half-pixel edge distance and (c) coverage beyond one pixel are decided per case by exact rational oracles "
+    "Partial proof + verified-oracle exploration: (a) is proved for everything snapPolygonF returns (C04_output_vertex_is_input_pixel); (b) is proved for the routed boundary of every ring, closing edge included (C04_routed_boundary_within_half_pixel: every point of every edge of joinChain(routeRing) is within half a pixel of the input ring, over Q), and through the whole of processLevel for polygons without holes on which nothing collapses (C04_edges_within_half_pixel_no_collapse); (b) half-pixel edge distance and (c) coverage beyond one pixel are decided per case by exact rational oracles "
     "(5 points per output edge; up to 150 locations per case). Known finding F5.",
     "The deformation/winding-parity argument behind (b),(c) is not machine-checked.",
     extra_trusted=["edge distance and coverage are explored with exact oracles, not proved"])
